@@ -789,12 +789,16 @@ func (s *Server) handleRPCFormContract(stream net.Conn) error {
 	} else if err != nil {
 		return fmt.Errorf("failed to fund transaction: %w", err)
 	}
+	// remember the inputs that were locked for this RPC: the transaction is
+	// truncated to the renter's inputs while they are rebased, so it does not
+	// name them if the RPC fails in between
+	fundedInputs := append([]types.V2SiacoinInput(nil), formationTxn.SiacoinInputs[len(req.RenterInputs):]...)
 	defer func() {
 		if broadcast {
 			return
 		}
 		// release the inputs if the transaction is not going to be broadcast
-		s.wallet.ReleaseInputs(nil, []types.V2Transaction{formationTxn})
+		s.wallet.ReleaseInputs(nil, []types.V2Transaction{{SiacoinInputs: fundedInputs}})
 	}()
 	// sign the transaction inputs
 	s.wallet.SignV2Inputs(&formationTxn, toSign)
@@ -955,12 +959,16 @@ func (s *Server) handleRPCRefreshContract(stream net.Conn, partial bool) error {
 	} else if err != nil {
 		return fmt.Errorf("failed to fund transaction: %w", err)
 	}
+	// remember the inputs that were locked for this RPC: the transaction is
+	// truncated to the renter's inputs while they are rebased, so it does not
+	// name them if the RPC fails in between
+	fundedInputs := append([]types.V2SiacoinInput(nil), renewalTxn.SiacoinInputs[len(req.RenterInputs):]...)
 	defer func() {
 		if broadcast {
 			return
 		}
 		// release the locked UTXOs if the transaction is not going to be broadcast
-		s.wallet.ReleaseInputs(nil, []types.V2Transaction{renewalTxn})
+		s.wallet.ReleaseInputs(nil, []types.V2Transaction{{SiacoinInputs: fundedInputs}})
 	}()
 
 	// update renter inputs to reflect our chain state
@@ -1136,12 +1144,16 @@ func (s *Server) handleRPCRenewContract(stream net.Conn) error {
 	} else if err != nil {
 		return fmt.Errorf("failed to fund transaction: %w", err)
 	}
+	// remember the inputs that were locked for this RPC: the transaction is
+	// truncated to the renter's inputs while they are rebased, so it does not
+	// name them if the RPC fails in between
+	fundedInputs := append([]types.V2SiacoinInput(nil), renewalTxn.SiacoinInputs[len(req.RenterInputs):]...)
 	defer func() {
 		if broadcast {
 			return
 		}
 		// release the locked UTXOs if the transaction is not going to be broadcast
-		s.wallet.ReleaseInputs(nil, []types.V2Transaction{renewalTxn})
+		s.wallet.ReleaseInputs(nil, []types.V2Transaction{{SiacoinInputs: fundedInputs}})
 	}()
 
 	// update renter inputs to reflect our chain state
